@@ -218,6 +218,7 @@ def ms_make_fn(env, kind, rid, name):
     from hypothesis import strategies as st
 
     def record(ctx):
+        B.RAN.append(rid)
         env.ran.append((rid, env.op_index.get(id(ctx.operation), -1)))
 
     if kind == "map":
@@ -300,14 +301,14 @@ def ms_eval(env, u, with_test, seed, examples=2):
     for tg in B.PARAM_TARGETS:
         log = []
         H.apply_to_all_dispatchers(o, ctx, tdisp, B.FakeStrategy(log), tg)
-        rows.append([[B.FAKE_KIND[k], fid] for k, fid in log])
+        rows.append([[B.FAKE_KIND[k], fid] for k, fid in B.resolve_log(log)])
     log = []
     o.schema.get_case_strategy = lambda *a, **k: B.FakeStrategy(log)  # instance attribute of OUR schema object
     try:
         o.as_strategy(hooks=tdisp)
     finally:
         del o.schema.get_case_strategy
-    rows.append([[B.FAKE_KIND[k], fid] for k, fid in log])
+    rows.append([[B.FAKE_KIND[k], fid] for k, fid in B.resolve_log(log)])
     # real data generation; the generator applies auth itself
     storage = A.AuthStorageMark.get(env.test) if with_test else None
     del env.ran[:]
